@@ -158,13 +158,27 @@ def random_state(rng, N, K, L, assort, directed, reachable=None):
                     u[k * N + i] = 0.0
                 if directed and i not in V:
                     v[k * N + i] = 0.0
+    if rng.random() < 0.25:
+        # a group that has almost died out: its column sums are small but above the 1e-6 guard, their product is not
+        k = rng.randrange(K)
+        for m in ([u, v] if directed else [u]):
+            tot = sum(m[k * N:(k + 1) * N])
+            if tot > 0:
+                f = 10 ** -rng.uniform(3.0, 5.5) / tot
+                for i in range(N):
+                    m[k * N + i] *= f
     if assort:
         w = [rand_val(rng, "s") for _ in range(K * L)]
     else:
         w = [rand_val(rng, "s") for _ in range(K * K * L)]
-        if rng.random() < 0.5:  # symmetric
-            for a in range(L):
-                for k in range(K):
-                    for q in range(k):
+        mode = rng.random()
+        for a in range(L):
+            # all layers symmetric / every layer on its own symmetric, zero or not (e.g. the first symmetric, a later one not)
+            kind = "sym" if mode < 0.4 else ("any" if mode < 0.6 else rng.choice(["sym", "zero", "any", "any"]))
+            for k in range(K):
+                for q in range(K):
+                    if kind == "zero":
+                        w[a * K * K + q * K + k] = 0.0
+                    elif kind == "sym" and q < k:
                         w[a * K * K + q * K + k] = w[a * K * K + k * K + q]
     return u, v, w
